@@ -292,7 +292,7 @@ def r4_vertical_table(ctx):
       prod_consumers = [2, 5] + ([7] if extra_consumer else [])
       prod = Obj(TI, {'transformation': pt, 'tensor_id': 3, 'producer': 1, 'consumers': list(prod_consumers), 'parameters': 'P'})
       cons = Obj(TI, {'transformation': ct, 'tensor_id': 3, 'producer': 1, 'consumers': list(group), 'parameters': 'P' if same else 'C'})
-      outs = it.outcomes(f, [Obj('x:self', {}), prod, [cons]])
+      outs = it.outcomes(f, [Obj(f.cls.fq if f.cls is not None else 'x:self', {}), prod, [cons]])
       rows += 1
       label = f'producer={pt.name} consumer={ct.name} same_params={same} other_consumers={extra_consumer} consumer entries={group}'
       if len(outs) != 1 or outs[0].kind != 'return':
